@@ -195,16 +195,22 @@ class IOBase(Communicator):
         """called before communicate"""
         if not self.is_connected:
             # accessLock is the lock of read_is_connected: no attempt of an other thread
-            # (e.g. the poller) may come between the test of the rate limit and our attempt
-            with self.accessLock:
-                if self.is_connected:
-                    return  # connected by an other thread in the meantime
-                now = time.time()
-                if now >= self._last_connect_attempt + self.pollinterval:
-                    # we do not try to reconnect more often than pollinterval
-                    self._last_connect_attempt = now
-                    if self.read_is_connected():
-                        return
+            # (e.g. the poller) may come between the test of the rate limit and our attempt.
+            # We must not wait for it: the caller may hold self._lock (multicomm), which a thread
+            # connecting right now needs for the identification (checkHWIdent) -> deadlock.
+            # When an other thread is connecting, this call fails like any call while disconnected.
+            if self.accessLock.acquire(blocking=False):
+                try:
+                    if self.is_connected:
+                        return  # connected by an other thread in the meantime
+                    now = time.time()
+                    if now >= self._last_connect_attempt + self.pollinterval:
+                        # we do not try to reconnect more often than pollinterval
+                        self._last_connect_attempt = now
+                        if self.read_is_connected():
+                            return
+                finally:
+                    self.accessLock.release()
             raise SilentError('disconnected') from None
 
     def registerReconnectCallback(self, name, func):
